@@ -151,6 +151,8 @@ def c_is_eos(ex, st, key, argv, dest_ty, raw):
 
     def yes(ex, st, a):
         st.world["eos_claimed"] = True
+        if "Fin" not in st.world["script"]:
+            st.world["script"].append("Fin")      # is_eos() is true: the end of the stream HAS been observed, nothing is buffered
         return z3.BoolVal(True)
     return [Case(None, lambda ex, st, a: z3.BoolVal(False)), Case(z3.BoolVal(True), yes)]
 
@@ -521,6 +523,13 @@ def check(L, tier, log, samples):
         if final_err is not None and last[0] != "accept":
             add("c03.valid_sequence.stream_error", "a valid sequence ends in a stream error without any fault injected", s, calls)
             continue
+        if lastk and lastk[0] in ("ok_none", "ok_some") and last[0] == "recv_trailers" and not (exp and exp[-1][1] == "end"):
+            # the message is declared complete although the end of the stream has not been seen: whatever arrives later
+            # (DATA, a second trailer section, SETTINGS ..) is never examined, so an invalid sequence is delivered
+            add("c03.message_delivered_before_end_of_stream",
+                "recv_trailers completes the message before the end of the stream was seen: a frame arriving in a later chunk "
+                "(DATA or any known frame after the trailers) is never checked, the invalid sequence is delivered as a valid message", s, calls)
+            continue
         if exp and exp[-1][1] == "end" and lastk and lastk[0] in ("ok_none", "ok_some") and last[0] == "recv_trailers":
             wit["valid_message_delivered"] = True
         if len(samples) < 3 and lastk:
@@ -536,4 +545,6 @@ def check(L, tier, log, samples):
 def replay_args(v):
     if v["key"] == "c03.empty_data_frame.reported_as_end_of_body":
         return ("c03_empty_data", [])
+    if v["key"] == "c03.message_delivered_before_end_of_stream":
+        return ("c03_frame_after_trailers", [])
     return None
